@@ -1155,6 +1155,10 @@ impl<T: TraceStorage> ChainProcess<T> {
                 let mut msg = stop_marker_rx.try_recv();
                 let mut draw = 0;
                 loop {
+                    // A run without any draw (num_tune = num_draws = 0) records nothing.
+                    if draw >= draws {
+                        break;
+                    }
                     #[cfg(nuts_rs_verif)]
                     crate::verif::sched(
                         crate::verif::sched_point::CHAIN_LOOP_TOP,
